@@ -16,10 +16,13 @@ MANIFEST = {
             "(repo_patches/10..12-fix-filter-*) is kept and the NEGATIONS are proved on it with minimal witnesses, which are "
             "replayed on the real bin/filter on every run. Tie: thread x batch-size grid on the real tool, per-order counts "
             "steered to k*b, k*b+-1, 0, all modes and both formats, every run under a timeout, outputs byte-compared with "
-            "threads:1, with the Lean driver's sequential filter and with the model run under random schedules.",
+            "threads:1, with the Lean driver's sequential filter and with the model run under random schedules; plus stream "
+            "filter-sched: the real filter_main pipeline in-process (harness/c12_sched.cc) under seeded delay injection at the "
+            "KPU_KENLM_VERIF scheduling points of PCQueue/ThreadPool (several hundred perturbed schedules per quick run, watchdog, "
+            "hangs confirmed by a threads:1 control and re-runs of the same seed), outputs byte-compared with threads:1.",
     "note": "Trusted: Lean kernel + standard axioms; statements in lean/Properties/C12.lean; atomicity of PCQueue Produce/Consume "
-            "and FIFO exactly-once delivery (property C17's theorem) are assumptions of the model; real OS schedules are only "
-            "sampled (each configuration is run several times).",
+            "and FIFO exactly-once delivery are C17's theorem pcqueue_refines_fifo (cited, build-checked); real OS schedules are "
+            "sampled and perturbed at the hook points, not enumerated.",
     "technique": "Lean 4 proof (inductive invariant over an executable transition system, all schedules) + differential "
                  "correspondence with the real CLI tool",
 }
